@@ -987,8 +987,8 @@ impl P {
                 let nl = 1usize << depth;
                 let seed = 20 + depth as u64;
                 // every mutation of every (sorted) opening?
-                let full = if depth <= 3 { toy || hi == 1 || hi == 4 || thorough } else { thorough && toy };
                 for mask in 1u32..(1u32 << nl) {
+                    let full = if depth <= 3 { toy || hi == 1 || hi == 4 || thorough } else { thorough && toy && mask % 16 == 5 };
                     if !toy && depth == 4 && !thorough && mask % 32 != 7 {
                         continue;
                     }
@@ -1025,7 +1025,7 @@ impl P {
                                 }
                             }
                         } else if oi == 0 || depth <= 3 {
-                            let cnt = if toy { scale } else { 1 };
+                            let cnt = if toy { scale * if thorough { 6 } else { 1 } } else { 1 + thorough as usize };
                             for _ in 0..cnt {
                                 emit(format!("batch {} {} {} {} {}", h, depth, seed, is, rng.pick(&muts)));
                             }
